@@ -756,11 +756,21 @@ impl World {
                     st.conns[id].fired.push("stall".into());
                     st.reach("stalled_connection");
                 });
-                // hold the connection (and with it a worker) for a bounded number of steps: wait
-                // until a read is pending on it, then let the rest of the world run for a while
+                // hold the connection (and with it a worker): wait until a read is pending on it.
+                // While fewer connections stall than there are workers, a correct server serves
+                // everybody else meanwhile, so the stall lasts until they have all ended;
+                // otherwise it lasts a bounded number of steps.
                 self.block_on(cv_cli(id), |st| if st.conns[id].server_waiting_read || st.conns[id].server_closed { Some(()) } else { None });
-                for _ in 0..24 {
-                    self.switch();
+                let phase = c.phase;
+                let stalls = self.sc.conns.iter().filter(|o| o.phase == phase && matches!(o.client, ClientMode::Stall { .. })).count();
+                if stalls < self.sc.workers {
+                    let others: Vec<usize> = self.sc.conns.iter().filter(|o| o.phase == phase && !matches!(o.client, ClientMode::Stall { .. })).map(|o| o.id).collect();
+                    self.block_on(CV_MAIN, |st| if others.iter().all(|&o| conn_ended(&st.conns[o])) { Some(()) } else { None });
+                    self.with(|st| st.reach("stall_outlasted_all_other_connections"));
+                } else {
+                    for _ in 0..24 {
+                        self.switch();
+                    }
                 }
                 if *then_send {
                     self.deliver(id, req);
